@@ -13,6 +13,7 @@ import numpy as np
 from ..simkit import gen, refmodel
 from ..simkit.backends import BackendFault, classes
 from ..simkit.core import call, judge, clear_library_caches
+from ..simkit.simalloc import SimAlloc
 from ..simkit.simrng import POLICIES, SimRNG
 
 PID = "C04"
@@ -99,7 +100,7 @@ class World:
                                          "bessel": r.random() < 0.3},
                  "client": r.randrange(cfg["clients"]), "rs": r.getrandbits(32)}
             if cfg["faults"] != "none" and r.random() < 0.15:
-                s["fault"] = {"kind": "peer", "at": r.randrange(0, 3)}
+                s["fault"] = r.choice([{"kind": "peer", "at": r.randrange(0, 3)}, {"kind": "alloc", "at": r.randrange(0, 40)}])
             steps.append(s)
         if r.random() < 0.15:
             nd = r.choice([1, 2, 2, 3])
@@ -142,9 +143,10 @@ class World:
                 sims.append(SplitSim(s["family"], s["arg"], s["real_apply"], seed=s["seed"]))
         rng = SimRNG(cfg["rng_mode"], cfg["rng_policy"], ctx.probes).install()
         ops = [gen.build_pauli(o) for o in cfg.get("ops_pool", [])]
-        return {"sims": sims, "rng": rng, "umod": umod, "both_regimes_asym": False, "ops": ops}
+        return {"sims": sims, "rng": rng, "umod": umod, "both_regimes_asym": False, "ops": ops, "alloc": SimAlloc().install()}
 
     def cleanup(self, st):
+        st["alloc"].restore()
         st["rng"].restore()
 
     def _do_deficit_runner(self, ctx, st, step, a):
@@ -260,7 +262,7 @@ class World:
             ctx.probe("basis-state")
         fault = step.get("fault")
         is_split = hasattr(sim, "native_calls")
-        if fault and is_split:
+        if fault and is_split and fault.get("kind") == "peer":
             sim.arm(fault["at"])
             ok, res = call(sim.run_and_measure, circ, a["small"])
             sim.arm(None)
@@ -270,6 +272,14 @@ class World:
                 ctx.log("views", "peer-fault")
                 return
             ctx.check(ok, "unexpected-reject", "run", lambda: f"run_and_measure raised {type(res).__name__}: {res}")
+        if fault and fault.get("kind") == "alloc":
+            # a call that dies of a failed allocation somewhere inside the library; every view taken afterwards
+            # (below) must be as right as if it had never happened
+            st["alloc"].begin_call(fault)
+            ok, res = call(sim.run_and_measure, circ, a["big"] if fault["at"] % 2 else a["small"])
+            if st["alloc"].end_call():
+                ctx.fault("alloc-fault")
+                ctx.probe("alloc-fault" if not ok else "alloc-fault-survived")
         what = f"{type(sim).__name__}[{cfg['sims'][si]}] on {circ!r}"
         # 1. state vector
         ok, wf = call(sim.get_wavefunction, circ)
